@@ -31,13 +31,9 @@ TRUSTED = ['numpy slicing / strided views / fancy indexing as transcribed in Mod
            'A-FLOAT: float64/float32/int arithmetic on the enumerated small integers is exact',
            'numba.set_num_threads(4) during the run (scheduling only)']
 
-IMPORTS = 'Model.Num Model.Arrow Model.PointKernels Model.PointShape'
-CASE_TY = 'nat * shape * list nat'
-RES_TY = 'option ((unit + list bool) * (unit + list bool) * list (option (unit + bool)))'
-ORC_TY = 'nat * shape * list (option bool)'
+IMPORTS = 'Model.Num Model.Arrow Model.PointKernels Model.PointShape Model.PointShapeHarness'
 
 Nat, Rec, Some, Raw = C.Nat, C.Rec, C.Some, C.Raw
-INL = Raw('(inl tt)')
 
 
 # --------------------------------------------------------------------------
@@ -60,6 +56,9 @@ class Variant:
         assert all((e is None) == (p is None) for e, p in zip(self.els, pts))
         self.rec = C.export_fixarr(arr)
         self.n = len(pts)
+        # float64 twins of the elements (same slots, same integers) for the scalar form
+        self.twin_els = self.els if subtype == 'float64' else \
+            [t for t in (lambda a: [a[i] for i in range(len(a))])(_parr(pts, 'float64'))]
 
 
 def _parr(elems, st):
@@ -227,13 +226,13 @@ def arrow_scalar_shapes():
     a = G.make_array('polygon', [[[9, 9, 8, 8, 9, 8, 9, 9]], None, [sq, [1, 1, 1, 2, 2, 1, 1, 1]]], 'float64')
     out.append(('polygon', G.scalar_class('polygon')(a.data[2])))
     out.append(('polygon', G.scalar_class('polygon')(a.data[0])))
-    a = G.make_array('multipolygon', [[[[9, 9, 8, 8, 9, 8, 9, 9]]], [[sq], [[6, 6, 8, 6, 8, 8, 6, 6]]]], 'int32')
+    a = G.make_array('multipolygon', [[[[9, 9, 8, 8, 9, 8, 9, 9]]], [[sq], [[6, 6, 8, 6, 8, 8, 6, 6]]]], 'float64')
     out.append(('multipolygon', G.scalar_class('multipolygon')(a.data[1])))
     a = G.make_array('multiline', [[[9, 9, 8, 8]], [[0, 0, 4, 4], [2, 0, 2, 4]]], 'float64')
     out.append(('multiline', G.scalar_class('multiline')(a.data[1])))
     a = G.make_array('line', [[9, 9, 8, 8], [0, 0, 4, 4, 4, 0]], 'float64')
     out.append(('line', G.scalar_class('line')(a.data[1])))
-    a = G.make_array('multipoint', [[9, 9, 8, 8], [0, 0, 4, 4, 4, 0]], 'int64')
+    a = G.make_array('multipoint', [[9, 9, 8, 8], [0, 0, 4, 4, 4, 0]], 'float64')
     out.append(('multipoint', G.scalar_class('multipoint')(a.data[1])))
     return out
 
@@ -255,25 +254,36 @@ def call(f):
         return ('raised', type(e).__name__, str(e)[:200])
 
 
-def as_sum(r, conv):
-    return INL if r[0] == 'empty' else Rec('inr', conv(r[1]))
-
-
 def bools(a):
     return [bool(x) for x in np.asarray(a).tolist()]
 
 
-def impl_three_forms(v, shape, inds):
+def impl_three_forms(v, shape, sc_els, sc_shape, inds):
+    """{'arr': [bool] | 'empty', 'inds': ..., 'scalars': [None | bool | 'empty']} or ('raised', ..)"""
     r1 = call(lambda: v.arr.intersects(shape))
     r2 = call(lambda: v.arr.intersects(shape, np.array(inds, dtype='int64')))
-    r3 = [None if e is None else call(lambda e=e: e.intersects(shape)) for e in v.els]
+    r3 = [None if e is None else call(lambda e=e: e.intersects(sc_shape)) for e in sc_els]
     for r in [r1, r2] + [r for r in r3 if r is not None]:
         if r[0] == 'raised':
             return r
-    if r1[0] == 'ok' and (np.asarray(r1[1]).dtype != np.bool_ or np.asarray(r2[1]).dtype != np.bool_):
-        return ('raised', 'dtype', 'result is not a boolean array')
-    return Some((as_sum(r1, bools), as_sum(r2, bools),
-                 [None if r is None else Some(as_sum(r, bool)) for r in r3]))
+    for r in (r1, r2):
+        if r[0] == 'ok' and np.asarray(r[1]).dtype != np.bool_:
+            return ('raised', 'dtype', 'result is not a boolean array')
+    return {'arr': 'empty' if r1[0] == 'empty' else bools(r1[1]),
+            'inds': 'empty' if r2[0] == 'empty' else bools(r2[1]),
+            'scalars': [None if r is None else ('empty' if r[0] == 'empty' else bool(r[1])) for r in r3]}
+
+
+def enc_out(x):
+    return -1 if x == 'empty' else U.enc_bools(x)
+
+
+def enc_scalars(l):
+    z, w = 0, 1
+    for r in l:
+        z += w * (0 if r is None else 1 if r == 'empty' else 3 if r else 2)
+        w *= 4
+    return z + w
 
 
 def oracle_row(kind, sem, pts):
@@ -318,85 +328,116 @@ def count_classes(rep, kind, sem, pts, orow):
             if o:
                 rep.count('on_line')
             if any(vs[i] == vs[i + 1] for vs in parts for i in range(len(vs) - 1)):
-                rep.count('zero_length_segment_pairs')
+                rep.count('point_vs_line_with_zero_length_segment')
 
 
 class Batch:
     def __init__(self, variants):
         self.variants = variants
         arrs = '[' + '; '.join(C.coq(v.rec) for v in variants) + ']'
-        self.fn = (f"fun c : {CASE_TY} => let '(k, s, inds) := c in "
-                   f"three_forms (nth k {arrs} (Build_fixarr 0 0 None [])) s inds")
-        self.fn_orc = (f"fun c : {ORC_TY} => let '(k, s, orc) := c in "
-                       f"match array_intersects (nth k {arrs} (Build_fixarr 0 0 None [])) s None with "
-                       "| Some (Value r) => Nat.eqb (List.length r) (List.length orc) && "
-                       "forallb (fun ro : bool * option bool => match snd ro with None => true "
-                       "| Some b => Bool.eqb (fst ro) b end) (combine r orc) "
-                       "| _ => false end")
+        self.fn = f"harness_eval {arrs}"
         self.cases, self.res, self.meta = [], [], []
-        self.ocases, self.ores, self.ometa = [], [], []
+
+    def wire(self, vidx, kind, shape, inds, known, value):
+        code, off, ln, offs, vals = U.wire_shape(kind, shape)
+        return Raw(f"({vidx}, {code}, {off}, {ln}, {U.zlist(offs)}, {U.zlist(vals)}, "
+                   f"{U.zlist(inds)}, {known}, {value})%Z")
 
 
-def check_one(rep, batch, vidx, kind, shape, inds, meta, sem=None, subtypes_all=None):
+def check_one(rep, batch, vidx, kind, shape, inds, meta, sem=None, subtypes_all=None,
+              sc_els=None, sc_shape=None):
     """run the three forms of one shape on one point array; queue the model comparison;
     compare with the oracle.  Returns False when a violation was reported."""
     v = batch.variants[vidx]
     ok = True
-    res = impl_three_forms(v, shape, inds)
+    res = impl_three_forms(v, shape, v.els if sc_els is None else sc_els,
+                           shape if sc_shape is None else sc_shape, inds)
     if isinstance(res, tuple):
         rep.violation(f'raises:{kind}:{res[1]}', f'intersects({kind}) raised {res[1]}: {res[2]}',
                       {**meta, 'impl': list(res)})
         return False
-    srec = U.export_shape(kind, shape)
-    batch.cases.append((Nat(vidx), srec, [Nat(i) for i in inds]))
-    batch.res.append(res)
-    batch.meta.append({**meta, 'impl': res})
-    r1 = res.v[0]
+    got = res['arr']
     # every subtype gives the same answers (the exported integers are the same)
-    if subtypes_all is not None and isinstance(r1, Rec):
+    if subtypes_all is not None:
         for name, other in subtypes_all.items():
-            if other != ('ok', r1.args[0]):
+            if other != got:
                 rep.violation(f'subtype-differs:{kind}', f'{name} answers differently from {v.name}',
-                              {**meta, 'other_variant': name, 'other': other, 'this': r1.args[0]})
+                              {**meta, 'other_variant': name, 'other': other, 'this': got})
                 ok = False
+    known = value = 0
+    orow = None
     if sem is not None:
         orow = oracle_row(kind, sem, v.pts)
         count_classes(rep, kind, sem, v.pts, orow)
-        if isinstance(r1, Rec):
-            got = r1.args[0]
+        known = sum(1 << i for i, o in enumerate(orow) if o is not None)
+        value = sum(1 << i for i, o in enumerate(orow) if o)
+        if got != 'empty':
             bad = [i for i, (g, o) in enumerate(zip(got, orow)) if o is not None and g != o]
             if bad or len(got) != len(orow):
                 i = bad[0] if bad else -1
-                what = 'missing' if (bad and v.pts[i] is None) else \
-                    ('inside' if (bad and orow[i]) else 'outside')
+                what = 'length' if not bad else 'missing' if v.pts[i] is None else \
+                    'inside' if orow[i] else 'outside'
                 rep.violation(f'oracle:{kind}:{what}',
                               f'{kind}: point {v.pts[i] if bad else None} is {what} by exact arithmetic, '
                               f'intersects says {got[i] if bad else got}',
                               {**meta, 'point_index': i, 'point': v.pts[i] if bad else None,
-                               'oracle': orow, 'impl_array_form': got})
+                               'oracle': orow, 'impl': res})
                 ok = False
         else:
-            rep.violation(f'oracle:{kind}:raises', f'{kind}: a shape of the quantifier raises', meta)
+            rep.violation(f'oracle:{kind}:raises', f'{kind}: a shape of the quantifier raises',
+                          {**meta, 'impl': res})
             ok = False
-        batch.ocases.append((Nat(vidx), srec, [None if o is None else Some(o) for o in orow]))
-        batch.ores.append(True)
-        batch.ometa.append({**meta, 'oracle': orow})
+    batch.cases.append(batch.wire(vidx, kind, shape, inds, known, value))
+    batch.res.append(Some((enc_out(res['arr']), enc_out(res['inds']), enc_scalars(res['scalars']), True)))
+    batch.meta.append({**meta, 'impl': res, 'oracle': orow})
     return ok
 
 
+def decode_model(txt, n, ninds):
+    """the model's printed (z1, z2, z3, agrees) -> readable"""
+    import re
+    m = re.match(r'\s*Some\s*\(\s*(-?\d+)\s*,\s*(-?\d+)\s*,\s*(-?\d+)\s*,\s*(true|false)\s*\)', txt)
+    if not m:
+        return {'raw': txt}
+
+    def bits(z):
+        z = int(z)
+        if z < 0:
+            return 'empty'
+        out = []
+        while z > 1:
+            out.append(bool(z & 1))
+            z >>= 1
+        return out
+    z3, sc = int(m.group(3)), []
+    while z3 > 1:
+        sc.append([None, 'empty', False, True][z3 & 3])
+        z3 >>= 2
+    return {'arr': bits(m.group(1)), 'inds': bits(m.group(2)), 'scalars': sc,
+            'agrees_with_oracle': m.group(4) == 'true'}
+
+
 def flush(rep, batch):
-    bad = C.coq_mismatches(IMPORTS, batch.fn, CASE_TY, RES_TY, batch.cases, batch.res, shard=200)
+    bad = C.coq_mismatches(IMPORTS, batch.fn, 'wire_case', 'option (Z * Z * Z * bool)',
+                           batch.cases, batch.res, shard=400)
     for i in bad[:12]:
-        model = C.coq_eval(IMPORTS, f'({batch.fn}) {C.coq(batch.cases[i])}')
         m = batch.meta[i]
-        rep.violation(f"model-differs:{m['kind']}",
-                      f"{m['kind']}: array / inds / scalar forms differ from the Coq model",
-                      {**m, 'model': model})
-    bad = C.coq_mismatches(IMPORTS, batch.fn_orc, ORC_TY, 'bool', batch.ocases, batch.ores, shard=200)
-    for i in bad[:12]:
-        m = batch.ometa[i]
-        rep.violation(f"model-vs-oracle:{m['kind']}",
-                      f"{m['kind']}: the Coq model disagrees with the exact oracle off the rings", m)
+        txt = C.coq_eval(IMPORTS, f'{batch.fn} {C.coq(batch.cases[i])}')
+        model = decode_model(txt, 0, 0)
+        impl = m['impl']
+        same = all(model.get(k) == impl[k] for k in ('arr', 'inds', 'scalars'))
+        if not same:
+            which = [k for k in ('arr', 'inds', 'scalars') if model.get(k) != impl[k]]
+            rep.violation(f"model-differs:{m['kind']}:{'+'.join(which)}",
+                          f"{m['kind']}: the {'/'.join(which)} form(s) differ from the Coq model",
+                          {**m, 'model': model})
+        if model.get('agrees_with_oracle') is False:
+            rep.violation(f"model-vs-oracle:{m['kind']}",
+                          f"{m['kind']}: the Coq model disagrees with the exact oracle off the rings",
+                          {**m, 'model': model})
+        if same and model.get('agrees_with_oracle') is not False:
+            rep.violation(f"model-differs:{m['kind']}:unparsed", 'model result not understood',
+                          {**m, 'model': model})
 
 
 def rand_inds(rng, n):
@@ -410,6 +451,15 @@ def rand_inds(rng, n):
     return inds
 
 
+def scalar_side(variants, v, tier, kind, coords, shape):
+    """which Point elements / shape the scalar form runs on.  thorough: the array's own
+    elements and the very shape.  quick: float64 twins of both (same slots, same integers)
+    unless the array is int32 -- this bounds the number of numba specialisations compiled."""
+    if tier != 'quick' or v.subtype in ('float64', 'int32') or coords is None:
+        return None, None
+    return v.twin_els, U.make_shape(kind, coords, 'array:float64')
+
+
 def run(rep):
     import numba
     tier = getattr(rep, 'tier_run', rep.tier)
@@ -421,7 +471,7 @@ def run(rep):
                 'multilines, multipoints, points; seeded random 5-7-vertex rings on a 5x5 grid; each '
                 'shape through array / inds / scalar forms, all 5 subtypes; a case is one shape x one '
                 'point array (56 slots); non-trivial = the answers contain both True and False; '
-                'distinct = distinct (kind, exported shape buffers)')
+                'distinct = distinct (kind, coordinates)')
     variants = build_variants()
     names = [v.name for v in variants]
     batch = Batch(variants)
@@ -436,14 +486,11 @@ def run(rep):
     for sh in gen_shapes(rep, tier):
         kind, coords, sem = sh['kind'], sh['coords'], sh['sem']
         k += 1
-        if sh.get('big'):
-            vidx = big[k % 2]
-        else:
-            vidx = rr[k % len(rr)]
+        vidx = big[k % 2] if sh.get('big') else rr[k % len(rr)]
         v = variants[vidx]
-        # the shape has the subtype of the point array (one compiled specialisation per subtype);
-        # float64 points also meet the int64 scalar built directly from the nested list
-        route = 'direct' if (v.subtype == 'float64' and k % 2) else 'array:' + v.subtype
+        # the shape has the subtype of the point array (one compiled specialisation per
+        # subtype); int64 points also meet the scalar built directly from the nested list
+        route = 'direct' if (v.subtype == 'int64' and k % 2) else 'array:' + v.subtype
         if tier != 'quick' and k % 11 == 0:
             route = rng.choice(routes_cross)
         meta = {'kind': kind, 'coords': coords, 'route': route, 'variant': v.name, 'sem': sem}
@@ -456,32 +503,37 @@ def run(rep):
         meta['inds'] = inds
         # all five subtypes, array form (the base arrays hold the same slots in the same order)
         others = None
-        if not sh.get('big') and v.name.startswith('base:'):
+        if v.name.startswith('base:'):
             others = {}
             for st, bv in base.items():
                 if st != v.subtype:
                     s2 = U.make_shape(kind, coords, 'array:' + st)
                     r = call(lambda: bv.arr.intersects(s2))
-                    others[bv.name] = (r[0], bools(r[1])) if r[0] == 'ok' else r
+                    others[bv.name] = bools(r[1]) if r[0] == 'ok' else r[0] if r[0] == 'empty' else r
+        sc_els, sc_shape = scalar_side(variants, v, tier, kind, coords, shape)
         nbefore = len(batch.cases)
-        check_one(rep, batch, vidx, kind, shape, inds, meta, sem=sem, subtypes_all=others)
+        check_one(rep, batch, vidx, kind, shape, inds, meta, sem=sem, subtypes_all=others,
+                  sc_els=sc_els, sc_shape=sc_shape)
         rep.evaluations += 1
         pairs += v.n * (1 + (len(others) if others else 0))
         rep.count(sh['cls'])
         rep.count('route:' + route.split(':')[0])
         rep.count('points:' + v.name)
-        r1 = batch.res[-1].v[0] if len(batch.cases) > nbefore else None
-        if isinstance(r1, Rec) and any(r1.args[0]) and not all(r1.args[0]):
-            rep.nontrivial((kind, repr(batch.cases[-1][1])))
+        if len(batch.cases) > nbefore:
+            got = batch.meta[-1]['impl']['arr']
+            if got != 'empty' and any(got) and not all(got):
+                rep.nontrivial((kind, repr(coords)))
         rep.sample({'kind': kind, 'coords': coords, 'variant': v.name, 'inds': inds}, cap=5)
         if k % 97 == 0:       # the empty point array
-            check_one(rep, batch, empty_idx, kind, shape, [], {**meta, 'variant': 'empty:float64', 'inds': []})
+            check_one(rep, batch, empty_idx, kind, U.make_shape(kind, coords, 'array:float64'), [],
+                      {**meta, 'variant': 'empty:float64', 'inds': [], 'route': 'array:float64', 'sem': None})
             rep.evaluations += 1
     # degenerate shapes and scalars built from pyarrow scalars: model = code only
+    f64 = [i for i in rr if variants[i].subtype == 'float64'] + [rr[ROUND_ROBIN.index('base:int32')]]
     for j, sh in enumerate(gen_degenerate()):
-        for vidx in (rr[j % len(rr)], rr[(j + 3) % len(rr)], empty_idx):
+        for vidx in (f64[j % len(f64)], f64[(j + 1) % len(f64)], empty_idx):
             v = variants[vidx]
-            route = 'direct' if j % 2 else 'array:' + v.subtype
+            route = 'array:' + v.subtype
             meta = {'kind': sh['kind'], 'coords': sh['coords'], 'route': route, 'variant': v.name}
             try:
                 shape = U.make_shape(sh['kind'], sh['coords'], route)
@@ -494,7 +546,7 @@ def run(rep):
             rep.evaluations += 1
             rep.count(sh['cls'])
     for j, (kind, shape) in enumerate(arrow_scalar_shapes()):
-        vidx = rr[j % len(rr)]
+        vidx = f64[j % 2]
         inds = rand_inds(rng, variants[vidx].n)
         check_one(rep, batch, vidx, kind, shape, inds,
                   {'kind': kind, 'coords': shape.data.as_py(), 'route': 'arrow_scalar',
@@ -504,7 +556,7 @@ def run(rep):
     flush(rep, batch)
     rep.extra['point_shape_pairs'] = pairs
     rep.extra['model_cases'] = len(batch.cases)
-    rep.extra['model_vs_oracle_cases'] = len(batch.ocases)
+    rep.extra['model_vs_oracle_cases'] = sum(1 for m in batch.meta if m['oracle'] is not None)
 
 
 def replay(rep, rp):
@@ -528,12 +580,12 @@ def replay(rep, rp):
             'inds': rp['inds']}
     ok = check_one(rep, batch, vidx, kind, shape, rp['inds'], meta, sem=sem)
     if batch.cases:
-        print('shape :', type(shape).__name__, rp['coords'])
-        print('impl  :', batch.res[0])
-        print('model :', C.coq_eval(IMPORTS, f'({batch.fn}) {C.coq(batch.cases[0])}'))
+        print('shape :', type(shape).__name__, rp['coords'], 'points:', rp['variant'])
+        print('impl  :', batch.meta[0]['impl'])
+        print('model :', decode_model(C.coq_eval(IMPORTS, f'{batch.fn} {C.coq(batch.cases[0])}'), 0, 0))
         if sem is not None:
-            print('oracle:', batch.ometa[0]['oracle'])
-    flush(rep, batch)
+            print('oracle:', batch.meta[0]['oracle'])
+        flush(rep, batch)
     for vio in rep.violations:
         print('  ', vio['signature'], '-', vio['what'])
     return ok and not rep.violations
